@@ -257,17 +257,21 @@ PROPS['C20'] = Prop(
 )
 
 PROPS['C13'] = Prop(
-    functions=['policy:Enforcer._undefined_check'],
+    functions=['policy:Enforcer._undefined_check', 'policy:Enforcer._cycle_check', 'policy:Enforcer.check_rules'],
     bounded=[('bounded.tools', 'c13')],
     level='other',
-    technique='contract-based deductive verification of the undefined-reference walk (own VC generator + z3); cycle walk, aggregation and graph-level exactness by a labelled bounded stand-in',
-    explanation='PROVED for check trees of any shape and depth: _undefined_check returns true exactly when some rule: '
-                'reference anywhere in the expression (under and, or and not) names an undefined rule. BOUNDED: the '
-                'cycle walk (its contract exists; 5 obligations are not discharged within budget), check_rules '
-                'aggregation and the validator: all digraphs on 3 names with references at varying depth plus random rule '
-                'sets on 6 names against an independent graph analysis; clean rule sets are evaluated under a '
-                'recursion watchdog.',
-    assumptions=COMMON_ASSUME + ['user-defined check classes carry no rules/rule attribute'],
+    technique='contract-based deductive verification of both tree walks and of the aggregation (own VC generator + z3); graph-level exactness of the cycle specification and termination-when-clean by a labelled bounded stand-in',
+    explanation='PROVED for check trees of any shape and depth: _undefined_check is true exactly when some rule: '
+                'reference anywhere in the expression (under and, or and not) names an undefined rule; _cycle_check '
+                'equals the branch-sensitive search cyc() on the name graph (a name repeats along one branch; sibling '
+                'branches get copies of the visited set, so diamonds are not reported; only the caller\'s set is '
+                'written); check_rules returns false exactly when some stored rule has either problem and raises '
+                'InvalidDefinitionError exactly when asked to and a problem exists. BOUNDED: that cyc() coincides with '
+                '"reaches a cycle" on the name graph (all digraphs on 3 names with references at varying depth, random '
+                'rule sets on 6 names, against an independent analysis), that clean rule sets evaluate without '
+                'recursion errors, and the validator\'s exit status.',
+    assumptions=COMMON_ASSUME + ['user-defined check classes carry no rules/rule attribute',
+                                 'partial correctness for the recursive walks (termination not proved)'],
 )
 
 PROPS['C16'] = Prop(
